@@ -35,7 +35,9 @@ class InjectedFault(ValueError):
 def snap(o):
     if isinstance(o, np.ndarray):
         return ("nd", o.shape, o.strides, str(o.dtype), bool(o.flags.writeable), bool(o.flags.c_contiguous),
-                bool(o.flags.f_contiguous), o.tobytes(order="A"), np.ascontiguousarray(o).tobytes())
+                bool(o.flags.f_contiguous), o.tobytes(order="A"), np.ascontiguousarray(o).tobytes(),
+                # a view: the buffer it looks into is the caller's as well
+                o.base.tobytes(order="A") if isinstance(o.base, np.ndarray) else None)
     if isinstance(o, (list, tuple)):
         return ("seq", type(o).__name__, len(o), tuple(id(x) for x in o), tuple(snap(x) for x in o))
     return ("val", repr(o))
@@ -81,10 +83,12 @@ def front_cases():
     """(kind, outcome, N, W, lam_kind, beta_kind, eps)"""
     out = []
     for kind in ("single", "joint"):
-        for outcome in ("success", "no_donor", "fault0", "fault1", "wrong_kind", "int_data", "f32_data", "neg_beta", "w1"):
+        for outcome in ("success", "no_donor", "fault0", "fault1", "wrong_kind", "int_data", "f32_data", "neg_beta", "w1",
+                        "vec_data", "be", "view", "zd"):
             for (lam_kind, beta_kind) in (("matrix", "vector"), ("scalar", "vector"), ("matrix", "scalar")):
                 for eps in (0, 1e-2):
-                    if outcome in ("wrong_kind", "no_donor", "int_data", "f32_data", "neg_beta", "w1") and (eps or lam_kind == "scalar"):
+                    if outcome in ("wrong_kind", "no_donor", "int_data", "f32_data", "neg_beta", "w1", "vec_data", "be", "view",
+                                   "zd") and (eps or lam_kind == "scalar"):
                         continue
                     if outcome == "neg_beta" and beta_kind != "vector":
                         continue
@@ -153,6 +157,55 @@ def build_front(kind, outcome, lam_kind, beta_kind, eps, order, readonly):
         if readonly:
             v.setflags(write=False)
         args["label_switching_cost"] = v
+    elif outcome == "vec_data":
+        # one sensor handed over as a vector: whatever the call does with it, the vector stays the caller's
+        def vec(a):
+            b = np.array(np.asarray(a)[:, 0], dtype=np.float64)
+            if readonly:
+                b.setflags(write=False)
+            return b
+        args["data"] = [vec(x) for x in args["data"]] if kind == "joint" else vec(args["data"])
+    elif outcome == "be":
+        # every array argument in the other byte order (what a file written on another machine gives)
+        def swapped(a):
+            b = np.array(a, dtype=np.dtype(np.float64).newbyteorder(), order="F" if (order == "F" and np.ndim(a) == 2) else "C")
+            if readonly:
+                b.setflags(write=False)
+            return b
+        args["data"] = [swapped(x) for x in args["data"]] if kind == "joint" else swapped(args["data"])
+        args["sparsity_weight"] = swapped(args["sparsity_weight"])
+        if beta_kind == "vector":
+            args["label_switching_cost"] = swapped(args["label_switching_cost"])
+    elif outcome == "view":
+        # non-contiguous views into larger buffers
+        def view2(a):
+            a = np.asarray(a)
+            big = np.full((2 * a.shape[0], a.shape[1] + 3), 7.25, order="F" if order == "F" else "C")
+            big[::2, 1:1 + a.shape[1]] = a
+            if readonly:
+                big.setflags(write=False)
+            return big[::2, 1:1 + a.shape[1]]
+        def view1(a):
+            a = np.asarray(a)
+            big = np.full(3 * len(a), 7.25)
+            big[::3] = a
+            if readonly:
+                big.setflags(write=False)
+            return big[::3]
+        args["data"] = [view2(x) for x in args["data"]] if kind == "joint" else view2(args["data"])
+        args["sparsity_weight"] = view2(args["sparsity_weight"])
+        if beta_kind == "vector":
+            args["label_switching_cost"] = view1(args["label_switching_cost"])
+    elif outcome == "zd":
+        # scalars handed over as 0-d arrays
+        def zd(x):
+            b = np.array(float(x))
+            if readonly:
+                b.setflags(write=False)
+            return b
+        args["sparsity_weight"] = zd(0.11)
+        args["label_switching_cost"] = zd(1.0)
+        args["min_meaningful_covariance"] = zd(0.0)
     elif outcome == "wrong_kind":
         if kind == "single":
             args["data"] = [form(s1, order, readonly), form(s2, order, readonly)]     # a list to ticc_labels
@@ -163,7 +216,10 @@ def build_front(kind, outcome, lam_kind, beta_kind, eps, order, readonly):
 
 
 EXPECT = {"success": "ok", "no_donor": RuntimeError, "fault0": InjectedFault, "fault1": InjectedFault,
-          "wrong_kind": TypeError, "int_data": "ok", "f32_data": "ok", "neg_beta": "ok", "w1": "ok"}
+          "wrong_kind": TypeError, "int_data": "ok", "f32_data": "ok", "neg_beta": "ok", "w1": "ok",
+          # outcome not prescribed: the arguments stay untouched whatever happens, and read-only / F-ordered forms
+          # end the same way as writable C-ordered ones
+          "vec_data": "any", "be": "any", "view": "ok", "zd": "any"}
 
 
 def work_front(task):
@@ -186,7 +242,9 @@ def work_front(task):
             if changed:
                 acc.fail(case, f"{kind} front end ({outcome}) modified its argument(s) {changed}")
             want = EXPECT[outcome]
-            if want == "ok":
+            if want == "any":
+                pass
+            elif want == "ok":
                 if res[0] != "ok":
                     acc.fail(case, f"{'read-only ' if readonly else ''}{order}-ordered inputs: raised "
                                    f"{type(res[1]).__name__}: {res[1]}")
